@@ -179,7 +179,25 @@ def replay_parents(parents, res):
     return d
 
 
+RESTARTS = [0]
+
+
 class C04Run(chainexec.Run):
+    def restart(self, how):
+        """after a restart the blocks have ARRIVED again, in the order in which the start-up code read them from the store
+        (by height): "first seen" is from then on judged against that order"""
+        n0 = self.stats.get("restarts", 0)
+        super().restart(how)
+        if self.stats.get("restarts", 0) > n0:
+            RESTARTS[0] += 1
+            led = self.world.uni
+            seen = [i for i in self.restart_order if i in led.nodes]
+            rest = [i for i in led.order if i not in set(seen)]
+            if led.genesis.id in rest:
+                rest.remove(led.genesis.id)
+                seen.insert(0, led.genesis.id)
+            led.order[:] = ([led.genesis.id] if led.genesis.id not in seen else []) + seen + rest
+
     def oracle(self):
         led, cs = self.world.uni, self.cs
         lost = [i for i in led.order if i not in cs.block_by_hash]
@@ -300,10 +318,11 @@ def run(shard, tier, seed):
               phases=[hypothesis.Phase.generate])
     @given(st.randoms(use_true_random=True), st.sampled_from(chainexec.CFGS), st.integers(*nb))
     def prop(rnd, cfg, k):
-        case = chainexec.gen_case(rnd, cfg, k, 0.0, ["C05"], p_fork=0.65, p_tx=0.4)
+        case = chainexec.gen_case(rnd, cfg, k, 0.0, ["C05"], p_fork=0.65, p_tx=0.4, p_restart=0.05)
         fails = replay(case)
         res.evaluations += len(case["ops"])
         res.count("validated_histories")
+        res.counters["restarts_in_validated_histories"] = RESTARTS[0]
         res.nontrivial(env.digest(case))
         for f in fails:
             res.fail(f["kind"], f["sig"], f["msg"], case)
